@@ -59,6 +59,8 @@ func cmdParseFamilies(args []string) {
 	id := 0
 	for _, sz := range strings.Split(*sizes, ",") {
 		n := atoiOr(sz, 100)
+		// the watchdog allows for the quadratic cost of a failing reduce on a deep stack (measured: 0.3 s at 9*10^3 tokens)
+		hangLimit = 20*time.Second + time.Duration(n/100)*time.Second
 		for _, f := range families {
 			if hangs >= 2 || (*only != "" && *only != f.name) {
 				continue
